@@ -234,7 +234,7 @@ def generate(seed, run, tier):
     if family == "bundled":
         return generate_bundled(crng, srng)
 
-    pool = weighted_choice(crng, [("ab", 30), ("abc", 25), ("abcd", 8), ("real", 12), ("idn", 12), ("edge", 8), ("digits", 5), ("suffixy", 6), ("kinds", 7), ("wide", 5), ("deep", 5)])
+    pool = weighted_choice(crng, [("ab", 30), ("abc", 25), ("abcd", 8), ("real", 12), ("idn", 12), ("edge", 8), ("digits", 5), ("suffixy", 6), ("kinds", 7), ("wide", 5), ("deep", 8)])
     alphabet = POOLS[pool]
     if pool in ("real", "idn", "edge", "digits", "abcd", "suffixy") and crng.random() < 0.5:
         alphabet = alphabet[: crng.choice([3, 4])]
@@ -245,6 +245,8 @@ def generate(seed, run, tier):
         depth = 2
     elif pool == "deep":
         depth = crng.choice([5, 6])
+    elif pool == "ab" and crng.random() < 0.3:
+        depth = 4  # long shared chains with a prune far above the fork
     cap = 64 if tier == "quick" else 200
     length = geometric(crng, 8 if len(alphabet) <= 2 else 12, cap, lo=1)
     spell_mode = crng.choice(["plain", "plain", "varied"])
